@@ -137,3 +137,15 @@ CHECKS['C08'] = dict(level='proof',
         'tweakedInfinitePerspective, and project(unProject(w)) == w with the inverse inlined (follows mathematically from C10 + the two viewport identities).',
    technique='abstract interpretation of instantiated LLVM IR into rational normal forms; symbolic corner mapping; configuration differential by term identity')
 NOT_APPLICABLE.pop('C08', None)
+
+CHECKS['C09'] = dict(level='proof',
+   text='translate / rotate / rotate_slow / scale / scale_slow / shear / shear_slow: every result lane is ring-equal (rational normal forms with cos/sin/sqrt/inverse atoms) to the lane of M * E with E '
+        'the elementary matrix written from its definition (translation, Rodrigues rotation about the normalised axis, diagonal scale, the shear matrix of the manual); gtx/transform, transform2 '
+        '(shear*2D/3D, reflect, proj, scaleBias), rotate_vector (rotate, rotateX/Y/Z), rotate_normalized_axis, matrix_transform_2d and axisAngleMatrix / extractMatrixRotation are compared the same way; '
+        'lookAtRH/LH lanes equal the textbook rows (s, u, -+f) and satisfy, on their own lanes, L*(eye,1) = (0,0,0,1), s.d = u.d = 0, z(d) = -+|d| and y(up) = |d x up|^2 * positive factors; '
+        'recompose() equals perspective-row * translate * mat4_cast * skews * scale composed from GLM\'s own factors, in the scalar type of its arguments.',
+   note='Algebraic identities over exact real arithmetic for all M, vectors, angles (cos/sin uninterpreted). Not decided: decompose() (data-dependent index permutation and the orthonormality / unit-quaternion '
+        'reasoning recompose(decompose(M)) == M needs), axisAngle(), interpolate(), float rounding differences between fast and _slow paths. The 2D shearX/shearY of matrix_transform_2d are decided '
+        'convention-independently (pure shear, shearY the transposed slot of shearX) because the manual does not write their matrix down. lookAt handedness dispatch is decided under C08.',
+   technique='abstract interpretation of instantiated LLVM IR into rational normal forms; comparison with elementary-matrix products written in a specification DSL; polynomial identities for lookAt')
+NOT_APPLICABLE.pop('C09', None)
